@@ -1367,6 +1367,23 @@ pub fn regression_worlds() -> Vec<(&'static str, FcWorld)> {
       ("/b.ts", "export * from \"./a.ts\";\nexport * from \"./c.ts\";\n"),
       ("/c.ts", "export interface X { v: string }\n"),
     ]),
+  ), (
+    // not a repaired finding: a fixed shape the generators do not write. A computed key is a
+    // reference to a *value* wherever the signature stands; the constants below are referred to
+    // from nowhere else, so each of them is kept only if its key is recorded as a value reference.
+    "computed keys of every signature kind naming unique-symbol constants nothing else refers to",
+    pkg(&[(
+      "/mod.ts",
+      "const kMeth: unique symbol = Symbol(\"m\");\nconst kProp: unique symbol = Symbol(\"p\");\nconst kGet: unique symbol = Symbol(\"g\");\nconst kSet: unique symbol = Symbol(\"s\");\n\
+const kIm: unique symbol = Symbol(\"im\");\nconst kIp: unique symbol = Symbol(\"ip\");\nconst kPar: unique symbol = Symbol(\"par\");\nconst kRet: unique symbol = Symbol(\"ret\");\n\
+const kCls: unique symbol = Symbol(\"cls\");\nconst kNest: unique symbol = Symbol(\"nest\");\nconst kUnused: unique symbol = Symbol(\"unused\");\n\
+export type Lit = { name: string; [kMeth](): void; [kProp]: number; get [kGet](): string; set [kSet](v: string) };\n\
+export interface Direct { [kIm](x: number): void; [kIp]: string }\n\
+export function take(h: { [kPar](): void }): void { h[kPar](); }\n\
+export function give(): { [kRet](code: number): string } { return undefined as never; }\n\
+export class Holder { hooks: { [kCls](): void } | undefined = undefined; }\n\
+export interface Outer { inner: { deep: { [kNest](): boolean }[] } }\n",
+    )]),
   )]
 }
 
